@@ -16,6 +16,11 @@ fn gen_template(src: &mut Src) -> String {
     for _ in 0..n {
         match src.weighted(&[4, 4, 2, 3, 2, 1, 1, 1, 1, 1]) {
             0 => t.push(*src.pick(&['a', 'é', '😀', ' ', '-', 'x', '}', '{'])),
+            1 if src.chance(1, 12) => {
+                // numbers around the 65535 cap
+                t.push('$');
+                t.push_str(*src.pick(&["65535", "65536", "655350", "655359", "65534", "99999", "100000", "6553", "065535"]));
+            }
             1 => {
                 t.push('$');
                 let d = src.weighted(&[5, 3, 1, 1]) + 1;
@@ -81,11 +86,16 @@ fn expand(t: &str, m: &regress::Match, names: &[(String, Cap)], hay: &str, out: 
             Some(d) if d.is_ascii_digit() => {
                 let mut j = i + 1;
                 let mut v: u64 = 0;
+                let mut prefix: u64 = 0; // value of the run without its last digit
                 while j < cs.len() && cs[j].is_ascii_digit() {
+                    prefix = v;
                     v = v.saturating_mul(10).saturating_add(cs[j] as u64 - '0' as u64);
                     j += 1;
                 }
-                if v > 65535 {
+                // The implementation stops reading digits once the number exceeds 65535 ("to avoid overflow"):
+                // what happens to the digits after that point is unspecified. A run whose value without its last
+                // digit is still <= 65535 is read completely under any reading, and denotes an absent group.
+                if prefix > 65535 {
                     *in_contract = false;
                 }
                 let r = if v == 0 {
@@ -236,6 +246,6 @@ pub fn run(ctx: &Ctx) -> i32 {
     ctx.finish(
         "exploration",
         "generated patterns (empty, adjacent, multi-byte matches) x haystacks x templates from a token grammar ($, digit runs incl. $0 $01 $10, ${name} existing/missing/duplicated/unterminated, $$, $$$, trailing $, $x, multi-byte text); oracle = splice H[last..m.start] ++ expand(T,m) over the library's own find_iter sequence with the documented template language; closure variants: identity, constant (length arithmetic), call order, first-only. Non-trivial = at least one match and a $-form that expands to non-empty text.",
-        &["the match sequence itself is taken from find_iter (C01/C09 judge it)", "digit runs whose value exceeds 65535 are outside the documented contract: only panic freedom and the closure laws are asserted there", "named groups resolve to the participating group (C16)"],
+        &["the match sequence itself is taken from find_iter (C01/C09 judge it)", "a digit run is outside the asserted contract only when its value WITHOUT its last digit already exceeds 65535 (the implementation stops reading digits there); every other run - including $65535, $65536, $655350 - must expand to the group of that number or to nothing", "named groups resolve to the participating group (C16)"],
     )
 }
